@@ -34,13 +34,36 @@ func gid() uint64 {
 }
 
 func hook(point string) {
+	id := gid()
 	regMu.RLock()
-	t := reg[gid()]
+	t := reg[id]
+	h := handlers[id]
 	regMu.RUnlock()
+	if h != nil {
+		h(point)
+	}
 	if t == nil {
 		return
 	}
 	t.at(point)
+}
+
+var handlers = map[uint64]func(string){}
+
+// OnPoint makes fn the handler of every yield point the CALLING goroutine passes
+// (free-running engines use it to gate or log specific goroutines). The returned
+// function removes the handler.
+func OnPoint(fn func(point string)) func() {
+	once.Do(func() { vhook.SetHook(hook) })
+	id := gid()
+	regMu.Lock()
+	handlers[id] = fn
+	regMu.Unlock()
+	return func() {
+		regMu.Lock()
+		delete(handlers, id)
+		regMu.Unlock()
+	}
 }
 
 // Event is what a thread reports: a yield point, "done", or "blocked".
